@@ -1143,8 +1143,9 @@ def strat_mul(env, cfg):
         op = draw(S(MULS_EB))
         P = draw(point_spec(c, torsion=op in NONREDUCING))
         k = draw(D(c.F.W)) if op == "eb_mul_dig" else draw(scalar(c))
-        return dict(cid=c.cid, nb=c.n.bit_length(), n=c.n, op=op, P=P, k=k, alias=draw(S([0, 0, 1])), poison=draw(st.integers(0, 255)),
-                    seed=draw(st.binary(min_size=8, max_size=8)))
+        rp = draw(rep_spec(c, ["basic"] if c.EB_ADD == c.BASIC or op == "eb_mul_gen" else ["basic", "projc"]))
+        return dict(cid=c.cid, nb=c.n.bit_length(), n=c.n, op=op, P=P, k=k, rp=rp, alias=draw(S([0, 0, 1])),
+                    poison=draw(st.integers(0, 255)), seed=draw(st.binary(min_size=8, max_size=8)))
     return s()
 
 
@@ -1161,7 +1162,7 @@ def run_mul(env, cfg, case):
     done = 0
 
     def build(p):
-        sp = p.new("EB", enc(c, P, BASICREP))
+        sp = p.new("EB", enc(c, P, case.get("rp") or BASICREP))
         sr = sp if alias else p.new("EB", enc(c, c.G, BASICREP))
         if op == "eb_mul_gen":
             sk = p.bn(k)
@@ -1207,7 +1208,8 @@ def strat_fix(env, cfg):
         i = draw(st.integers(0, len(FIX) - 1))
         P = {"m": 1, "t": 0} if draw(st.integers(0, 1)) else draw(point_spec(c, torsion=False, finite=True))
         ks = [draw(scalar(c)) for _ in range(draw(st.integers(1, 3)))]
-        return dict(cid=c.cid, nb=c.n.bit_length(), n=c.n, alg=i, op=FIX[i][1], P=P, ks=ks, poison=draw(st.integers(0, 255)))
+        return dict(cid=c.cid, nb=c.n.bit_length(), n=c.n, alg=i, op=FIX[i][1], P=P, ks=ks, poison=draw(st.integers(0, 255)),
+                    rp=draw(rep_spec(c, ["basic"] if c.EB_ADD == c.BASIC else ["basic", "projc"])))
     return s()
 
 
@@ -1224,7 +1226,7 @@ def run_fix(env, cfg, case):
     done = 0
 
     def build(p):
-        sp = p.new("EB", enc(c, P, BASICREP))
+        sp = p.new("EB", enc(c, P, case.get("rp") or BASICREP))
         st_ = p.new("EBV", ebctx.enc_points(c, [], alloc=tabsz))
         p.call(pre, st_, sp)
         outs = []
@@ -1298,7 +1300,7 @@ def strat_sim(env, cfg):
             if draw(st.booleans()):
                 k, m = m, k
         return dict(cid=c.cid, nb=c.n.bit_length(), n=c.n, op=op, P=P, Q=Q, k=k, m=m, alias=draw(S([0, 0, 0, 1, 2])),
-                    poison=draw(st.integers(0, 255)))
+                    poison=draw(st.integers(0, 255)), rp=draw(rep_spec(c, ["basic"] if c.EB_ADD == c.BASIC else ["basic", "projc"])), rq=draw(rep_spec(c, ["basic"] if c.EB_ADD == c.BASIC else ["basic", "projc"])))
     return s()
 
 
@@ -1320,7 +1322,8 @@ def run_sim(env, cfg, case):
     done = 0
 
     def build(p):
-        s0, s1 = p.new("EB", enc(c, P, BASICREP)), p.new("EB", enc(c, Q, BASICREP))
+        s0 = p.new("EB", enc(c, P, (case.get("rp") if op != "eb_mul_sim_gen" else None) or BASICREP))
+        s1 = p.new("EB", enc(c, Q, case.get("rq") or BASICREP))
         sr = p.new("EB", enc(c, c.G, BASICREP)) if alias == 0 else (s0 if alias == 1 else s1)
         k0, k1 = p.bn(k), p.bn(m)
         if op == "eb_mul_sim_gen":
